@@ -24,3 +24,13 @@ pub fn hashmap_entry_or_insert<'a, K: std::cmp::Eq + std::hash::Hash, V>(m: &'a 
 {
     m.entry(k).or_insert(v)
 }
+
+// `m.get(k)` with k: &str on a HashMap<String, V> (Borrow<str> lookup). Trusted (A-STD).
+#[verifier::external_body]
+pub fn hashmap_get_str<'a, V>(m: &'a HashMap<String, V>, k: &str) -> (r: Option<&'a V>)
+    ensures match r {
+        Some(v) => m@.contains_key(string_of(k@)) && *v == m@[string_of(k@)],
+        None => !m@.contains_key(string_of(k@)) }
+{
+    m.get(k)
+}
